@@ -528,6 +528,13 @@ func (s *Sim) hop(r *CallRec, ctx context.Context, ss grpc.ServerStream, op Op) 
 				e.Log("h.send", "", id, errStr(err))
 				return true
 			}
+			if i >= 300 && ctx.Err() == nil {
+				// nobody holds these messages up (the caller's side drops them): enough
+				// produced, wait for the end of the call like any handler
+				e.Pt("h.await")
+				<-ctx.Done()
+				return true
+			}
 			if i >= 400 && ctx.Err() != nil {
 				histMu.Lock()
 				r.HSendNeverFails = true
